@@ -529,3 +529,71 @@ def cci_conc_oracle(seed, tier):
                           'the final IO task ran %d times (the download would never be announced done)' % (nparts, len(fired)))
     res.samples.append(wit)
     return res
+
+
+
+# ---------------------------------------------------------------------------
+# TaskSemaphore (the stage queues and the upload-chunk tag) under the scheduler: whatever it is built
+# from, at most `count` holders at any instant, every blocking acquirer gets in once slots are given
+# back, and afterwards exactly `count` non-blocking acquires succeed.
+
+def tsem_blocking_oracle(seed, tier):
+    from sched import Scheduler
+    from shim import Installed
+    res = OracleResult('C10')
+    rng = rng_for(seed, 'tsem-blocking-oracle')
+    for i in range(600 if tier == 'quick' else 6000):
+        cap = rng.choice([1, 1, 2, 3])
+        nthreads = rng.randrange(2, 6)
+        rounds = [rng.randrange(1, 4) for _ in range(nthreads)]
+        mode = ['uniform', 'sticky', 'pct', 'stall'][i % 4]
+        sch = Scheduler(seed=rng.randrange(1 << 30), mode=mode, max_steps=20000)
+        state = {'holders': 0, 'worst': 0, 'blocked_seen': False}
+        probe = {}
+        with Installed(sch, modules=['utils']):
+            from s3transfer.utils import NoResourcesAvailable
+            from s3transfer.utils import TaskSemaphore
+            sem = TaskSemaphore(cap)
+
+            def worker(k):
+                def run():
+                    for _ in range(rounds[k]):
+                        if state['holders'] >= cap:
+                            state['blocked_seen'] = True
+                        tok = sem.acquire('t%d' % k, blocking=True)
+                        state['holders'] += 1
+                        state['worst'] = max(state['worst'], state['holders'])
+                        sch.point('hold')
+                        state['holders'] -= 1
+                        sem.release('t%d' % k, tok)
+                        sch.point('between')
+                return run
+
+            def main():
+                ts = [sch.spawn(worker(k), 'w%d' % k) for k in range(nthreads)]
+                sch.block_until(lambda: all(t.finished for t in ts), 'join')
+                got = 0
+                try:
+                    for _ in range(cap + 2):
+                        sem.acquire('probe', blocking=False)
+                        got += 1
+                except NoResourcesAvailable:
+                    pass
+                probe['free'] = got
+            fail = sch.run(main, timeout=60)
+        res.evaluations += 1
+        if res.enough():
+            break
+        wit = {'count': cap, 'threads': nthreads, 'acquire_release_rounds_per_thread': rounds, 'mode': mode, 'schedule': sch.choices[:300]}
+        if state['worst'] > cap:
+            res.violation('tasksemaphore:holders-exceed-count', wit, 'TaskSemaphore(%d): %d holders at once' % (cap, state['worst']))
+        if fail is not None:
+            res.violation('tasksemaphore:acquirer-blocked-for-ever', dict(wit, blocked=sch.blocked_summary()),
+                          'TaskSemaphore(%d): %r although every slot was given back' % (cap, fail))
+        elif probe.get('free') != cap:
+            res.violation('tasksemaphore:not-restored', dict(wit, free_afterwards=probe.get('free')),
+                          'TaskSemaphore(%d): %s non-blocking acquires succeed after everything was released' % (cap, probe.get('free')))
+        if state['blocked_seen']:
+            res.nontrivial.add(i)
+    res.samples.append({'count': cap, 'threads': nthreads, 'rounds': rounds})
+    return res
